@@ -147,9 +147,9 @@ def HKDF_expand(PRK, info, L, algorithm):
     N = divceil(L, getattr(hashlib, algorithm)().digest_size)
     T = bytearray()
     Titer = bytearray()
-    for x in range(1, N+2):
-        T += Titer
+    for x in range(1, N+1):
         Titer = secureHMAC(PRK, Titer + info + bytearray([x]), algorithm)
+        T += Titer
     return T[:L]
 
 def HKDF_expand_label(secret, label, hashValue, length, algorithm):
